@@ -957,6 +957,15 @@ pub struct BadAuthCase {
     /// (2), with the final character dropped (3), with a NUL appended (4)
     #[serde(default)]
     pub odd_password: Option<(u8, u8)>,
+    /// Some((cut, secs)): the preamble (flip / truncation as above) is delivered in two pieces with
+    /// this many seconds between them, the cut anywhere inside it - a slow but conforming client when
+    /// the preamble is right
+    #[serde(default)]
+    pub split_pause: Option<(u16, u8)>,
+    /// Some(n): n bytes that are not the beginning of the hash come first, then a pause of 12 s, then a
+    /// complete right preamble and session: the first 32 bytes received were not the hash
+    #[serde(default)]
+    pub junk_first: Option<u8>,
 }
 
 const ODD_PASSWORDS: [&str; 5] = ["  correct horse ", "hunter2\n", "\tTabbed Pass\r\n", "   ", "MiXeD case"];
@@ -982,21 +991,36 @@ impl Family for BadAuthFam {
         // an unfinished preamble (nothing at all / half a hash / padding not completed), a long silence,
         // then a complete session behind it
         vec![
-            BadAuthCase { flip_bit: None, declared: 30, truncate: Some(0), one_by_one: false, pause_s: 6, odd_password: None },
-            BadAuthCase { flip_bit: None, declared: 30, truncate: Some(16000), one_by_one: false, pause_s: 6, odd_password: None },
-            BadAuthCase { flip_bit: None, declared: 30, truncate: Some(60000), one_by_one: false, pause_s: 6, odd_password: None },
+            BadAuthCase { flip_bit: None, declared: 30, truncate: Some(0), one_by_one: false, pause_s: 6, odd_password: None, split_pause: None, junk_first: None },
+            BadAuthCase { flip_bit: None, declared: 30, truncate: Some(16000), one_by_one: false, pause_s: 6, odd_password: None, split_pause: None, junk_first: None },
+            BadAuthCase { flip_bit: None, declared: 30, truncate: Some(60000), one_by_one: false, pause_s: 6, odd_password: None, split_pause: None, junk_first: None },
             // hashes of related passwords: the trimmed form of a password configured with blanks around it
-            BadAuthCase { flip_bit: None, declared: 30, truncate: None, one_by_one: false, pause_s: 0, odd_password: Some((0, 1)) },
-            BadAuthCase { flip_bit: None, declared: 30, truncate: None, one_by_one: false, pause_s: 0, odd_password: Some((1, 1)) },
-            BadAuthCase { flip_bit: None, declared: 30, truncate: None, one_by_one: false, pause_s: 0, odd_password: Some((3, 1)) },
-            BadAuthCase { flip_bit: None, declared: 30, truncate: None, one_by_one: false, pause_s: 0, odd_password: Some((1, 0)) },
+            BadAuthCase { flip_bit: None, declared: 30, truncate: None, one_by_one: false, pause_s: 0, odd_password: Some((0, 1)), split_pause: None, junk_first: None },
+            BadAuthCase { flip_bit: None, declared: 30, truncate: None, one_by_one: false, pause_s: 0, odd_password: Some((1, 1)), split_pause: None, junk_first: None },
+            BadAuthCase { flip_bit: None, declared: 30, truncate: None, one_by_one: false, pause_s: 0, odd_password: Some((3, 1)), split_pause: None, junk_first: None },
+            BadAuthCase { flip_bit: None, declared: 30, truncate: None, one_by_one: false, pause_s: 0, odd_password: Some((1, 0)), split_pause: None, junk_first: None },
+            // a right preamble in two slow pieces (cut inside the hash / inside the padding) is still right
+            BadAuthCase { flip_bit: None, declared: 30, truncate: None, one_by_one: false, pause_s: 0, odd_password: None, split_pause: Some((16000, 12)), junk_first: None },
+            BadAuthCase { flip_bit: None, declared: 300, truncate: None, one_by_one: false, pause_s: 0, odd_password: None, split_pause: Some((40000, 12)), junk_first: None },
+            // junk, a long pause, then a right preamble: what came first was not the hash
+            BadAuthCase { flip_bit: None, declared: 30, truncate: None, one_by_one: false, pause_s: 0, odd_password: None, split_pause: None, junk_first: Some(5) },
+            BadAuthCase { flip_bit: None, declared: 30, truncate: None, one_by_one: false, pause_s: 0, odd_password: None, split_pause: None, junk_first: Some(31) },
         ]
     }
     fn strategy(&self, tier: Tier) -> BoxedStrategy<BadAuthCase> {
         let pause = if tier == Tier::Thorough { prop_oneof![16 => Just(0u8), 2 => Just(6u8), 1 => Just(12u8), 1 => Just(35u8), 1 => Just(65u8)].boxed() } else { prop_oneof![14 => Just(0u8), 1 => Just(6u8)].boxed() };
         let odd = proptest::option::weighted(0.2, (0u8..5, 0u8..5));
-        (proptest::option::weighted(0.6, any::<u8>()), prop_oneof![Just(0u16), Just(1), Just(30), Just(255), Just(256), Just(4000), Just(65535)], proptest::option::weighted(0.25, any::<u16>()), any::<bool>(), pause, odd)
-            .prop_map(|(flip_bit, declared, truncate, one_by_one, pause_s, odd_password)| BadAuthCase { flip_bit, declared, truncate, one_by_one, pause_s, odd_password })
+        let slow = if tier == Tier::Thorough { 0.06 } else { 0.02 };
+        let split = proptest::option::weighted(slow, (any::<u16>(), if tier == Tier::Thorough { prop_oneof![Just(3u8), Just(12), Just(25)].boxed() } else { prop_oneof![Just(3u8), Just(12)].boxed() }));
+        let junk = if tier == Tier::Thorough { proptest::option::weighted(0.03, 1u8..32).boxed() } else { Just(None::<u8>).boxed() };
+        (proptest::option::weighted(0.6, any::<u8>()), prop_oneof![Just(0u16), Just(1), Just(30), Just(255), Just(256), Just(4000), Just(65535)], proptest::option::weighted(0.25, any::<u16>()), any::<bool>(), pause, odd, split, junk)
+            .prop_map(|(flip_bit, declared, truncate, one_by_one, pause_s, odd_password, split_pause, junk_first)| {
+                if junk_first.is_some() {
+                    BadAuthCase { flip_bit: None, declared, truncate: None, one_by_one: false, pause_s: 0, odd_password: None, split_pause: None, junk_first }
+                } else {
+                    BadAuthCase { flip_bit, declared, truncate, one_by_one, pause_s, odd_password, split_pause, junk_first: None }
+                }
+            })
             .boxed()
     }
     fn case_budget_s(&self) -> u64 {
@@ -1035,7 +1059,27 @@ impl Family for BadAuthFam {
                 // frame boundary a session results, legitimately).
                 let unjudged = case.flip_bit.is_none() && presented == configured && !complete && pre.len() >= 32;
                 let mut rc_ = RefClient::connect(server).await?;
-                if case.one_by_one && pre.len() <= 300 {
+                if let Some(n) = case.junk_first {
+                    // junk that is not the beginning of the hash, a long pause, then everything right
+                    let hash = ref_hash(&configured);
+                    let junk: Vec<u8> = (0..n.clamp(1, 31)).map(|i| hash[i as usize] ^ 0x5a).collect();
+                    let _ = rc_.send_raw(&junk).await;
+                    tokio::time::sleep(Duration::from_secs(12)).await;
+                    let _ = rc_.send_raw(&ref_preamble(&configured, case.declared as usize)).await;
+                    let dest = Dest::of(target.addr).encode();
+                    let _ = rc_.send(&[RFrame::new(rc::SETTINGS, 0, b"v=2\nclient=ref\npadding-md5=x".to_vec()), RFrame::ctl(rc::SYN, 1), RFrame::new(rc::PSH, 1, dest), RFrame::new(rc::PSH, 1, b"payload-behind-preamble".to_vec())]).await;
+                    let _ = rc_.drain(3000).await;
+                    ensure!(rc_.raw_in == 0, "C06.e2e-neg", "{} bytes that are not the hash, 12 s of silence, then a right preamble: the server wrote {} application bytes - the first 32 bytes it received were not the hash", junk.len(), rc_.raw_in);
+                    tokio::time::sleep(Duration::from_millis(50)).await;
+                    ensure!(target.n_conns() == 0, "C06.e2e-neg", "{} bytes that are not the hash, 12 s of silence, then a right preamble: an outbound connection was made", junk.len());
+                    return Ok(false);
+                }
+                if let Some((cut, secs)) = case.split_pause {
+                    let at = idx(cut, pre.len() + 1).clamp(1.min(pre.len()), pre.len());
+                    let _ = rc_.send_raw(&pre[..at]).await;
+                    tokio::time::sleep(Duration::from_secs(secs as u64)).await;
+                    let _ = rc_.send_raw(&pre[at..]).await;
+                } else if case.one_by_one && pre.len() <= 300 {
                     for b in &pre {
                         let _ = rc_.send_raw(&[*b]).await;
                     }
@@ -1096,6 +1140,8 @@ impl Family for BadAuthFam {
         out.class_if(case.truncate.is_some(), "truncated");
         out.class_if(case.declared >= 256, "L>=256");
         out.class_if(!accepted && case.pause_s > 0, "silence-before-frames");
+        out.class_if(case.split_pause.is_some_and(|p| p.1 >= 12) && accepted, "right-preamble-in-two-slow-pieces");
+        out.class_if(case.junk_first.is_some(), "junk-then-silence-then-a-right-preamble");
         out.class_if(case.odd_password.is_some_and(|(k, how)| related_password(ODD_PASSWORDS[k as usize % ODD_PASSWORDS.len()], how) != ODD_PASSWORDS[k as usize % ODD_PASSWORDS.len()]), "hash-of-a-related-password");
         out.class_if(case.odd_password.is_some_and(|(k, how)| related_password(ODD_PASSWORDS[k as usize % ODD_PASSWORDS.len()], how) == ODD_PASSWORDS[k as usize % ODD_PASSWORDS.len()]), "password-with-blanks-accepted");
         Ok(out)
